@@ -138,15 +138,23 @@ def check_axis_rotations(ctx: Ctx):
     n = ctx.budget(600, 30000)
     for _ in range(n):
         k = rng.choice("123")
-        kind = rng.choice(["scalar", "scalar", "array", "list"])
-        m = 1 if kind == "scalar" else rng.randint(1, 4)
+        kind = rng.choice(["scalar", "scalar", "array", "list", "int", "intlist", "intarray"])
+        m = 1 if kind in ("scalar", "int") else rng.randint(1, 4)
         angles = [gen_angle(rng) for _ in range(m)]
+        if kind.startswith("int"):
+            # angles given with an integer type (a whole number of radians): the docstring's own example is R1([0, 1])
+            angles = [float(rng.randint(-12, 12)) for _ in range(m)]
+        elif kind == "float32array":
+            angles = [float(np.float32(a)) for a in angles]
         b = gen_angle(rng)
         case = {"fn": "R" + k, "input": kind, "angles": angles, "b": b}
         ctx.case(case, nontrivial=any(a != 0 for a in angles))
         ctx.count(f"R{k}")
         ctx.count(f"input={kind}")
-        arg = angles[0] if kind == "scalar" else (np.array(angles) if kind == "array" else list(angles))
+        arg = {"scalar": lambda: angles[0], "array": lambda: np.array(angles), "list": lambda: list(angles),
+               "int": lambda: int(angles[0]), "intlist": lambda: [int(a) for a in angles],
+               "intarray": lambda: np.array([int(a) for a in angles]),
+               "float32array": lambda: np.array(angles, dtype=np.float32)}[kind]()
         R = getattr(rotation, "R" + k)
         dR = getattr(rotation, "dR" + k)
         try:
@@ -155,7 +163,7 @@ def check_axis_rotations(ctx: Ctx):
         except Exception as e:
             gviolate(ctx, f"raises:R{k}:{kind}", f"rotation.R{k}/dR{k} raised {type(e).__name__}: {e}", case)
             continue
-        want_shape = (3, 3) if kind == "scalar" else (m, 3, 3)
+        want_shape = (3, 3) if kind in ("scalar", "int") else (m, 3, 3)
         if mats.shape != want_shape or dmats.shape != want_shape:
             gviolate(ctx, f"shape:R{k}:{kind}", f"R{k}({kind} of {m}) has shape {mats.shape}, dR {dmats.shape}; expected {want_shape}", case)
             continue
@@ -223,7 +231,7 @@ def check_enu_matrices(ctx: Ctx):
         except Exception as e:
             gviolate(ctx, f"raises:enu2trs:{kind}", f"rotation.enu2trs/trs2enu raised {type(e).__name__}: {e}", case)
             continue
-        want_shape = (3, 3) if kind == "scalar" else (m, 3, 3)
+        want_shape = (3, 3) if kind in ("scalar", "int") else (m, 3, 3)
         if e2t.shape != want_shape or t2e.shape != want_shape:
             gviolate(ctx, f"shape:enu2trs:{kind}", f"enu2trs has shape {e2t.shape}, trs2enu {t2e.shape}; expected {want_shape}", case)
             continue
@@ -489,7 +497,8 @@ def check_histories(ctx: Ctx):
     n = ctx.budget(120, 6000)
     for _ in range(n):
         ell = rng.choice(names)
-        kind = rng.choice(["trs->enu", "enu->trs", "trs->acr", "acr->trs", "posvel trs->enu", "ellipsoid"])
+        kind = rng.choice(["trs->enu", "enu->trs", "trs->acr", "acr->trs", "posvel trs->enu", "ellipsoid",
+                           "other: position observer", "other: posvel observer"])
         m = rng.choice([1, 1, 2, 3])
         shape = rng.choice(["1d", "1xk"]) if m == 1 else "nxk"
         llhA = [gen_ref_llh(rng) for _ in range(m)]
@@ -583,6 +592,55 @@ def one_history(ctx, c):
                 want = np.array([np.dot(dv, ahat), np.dot(dv, chat), np.dot(dv, rhat)])
                 if float(np.max(np.abs(got[i][:3] - want))) > (1e-9 + 1e-13 / max(sin_rv, 1e-12)) * float(np.linalg.norm(dv)) + 1e-300:
                     gviolate(ctx, "frame-of-current-ref_pos:acr", f"delta.acr after `delta.ref_pos = B` is {got[i][:3].tolist()} but along/cross/radial at B give {want.tolist()}", {**c, "i": i})
+    elif kind.startswith("other:"):
+        # the target (`other`) of an observer is replaced after azimuth / elevation / zenith distance / distance were read:
+        # what is reported afterwards are the angles of the vector to the target it has *now*, in the triad at the observer
+        posvel = "posvel" in kind
+        obs_trs = to_trs(c["refA_llh"], E)
+
+        def observer(target):
+            if posvel:
+                rows = [list(x) + list(v) for x, (_, v) in zip(obs_trs, c["statesA"])]
+                return PosVel(as_shape(rows, shape), "trs", ellipsoid=E, other=target)
+            return Position(as_shape(obs_trs, shape), "trs", ellipsoid=E, other=target)
+
+        def target(rows_llh):
+            # targets a few hundred km .. 26 000 km away: the observer's position plus the orbit-like vectors of the case
+            rows = [(np.array(o) + np.array(s_[0]) * 0.5).tolist() for o, s_ in zip(obs_trs, rows_llh)]
+            return Position(as_shape(rows, shape), "trs", ellipsoid=E), rows
+
+        t1, _ = target(c["statesA"])
+        t2, t2rows = target(c["statesB"])
+        O = observer(t1)
+        names = ["azimuth", "elevation", "zenith_distance", "distance"]
+        if c["read_before_replacing"]:
+            for nme in names:
+                getattr(O, nme)
+        O.other = t2
+        fresh_O = observer(target(c["statesB"])[0])
+        for nme in names:
+            got = np.atleast_1d(np.asarray(getattr(O, nme), dtype=float))
+            fresh = np.atleast_1d(np.asarray(getattr(fresh_O, nme), dtype=float))
+            sc = 1.0 if nme != "distance" else float(np.max(np.abs(fresh))) + 1.0
+            if got.shape != fresh.shape or float(np.max(np.abs(got - fresh))) > 1e-12 * sc:
+                gviolate(ctx, f"stale-after-other-replaced:{'posvel' if posvel else 'position'}:{nme}",
+                         f"{nme} after `observer.other = B` is {got.tolist()} but an observer built with B as its target reports {fresh.tolist()}", c)
+        az = np.atleast_1d(np.asarray(O.azimuth, dtype=float))
+        el = np.atleast_1d(np.asarray(O.elevation, dtype=float))
+        for i in range(m):
+            lat, lon, h = c["refA_llh"][i]
+            east = np.array([-math.sin(lon), math.cos(lon), 0.0])
+            north = np.array([-math.cos(lon) * math.sin(lat), -math.sin(lon) * math.sin(lat), math.cos(lat)])
+            up = np.array([math.cos(lon) * math.cos(lat), math.sin(lon) * math.cos(lat), math.sin(lat)])
+            dv = np.array(t2rows[i]) - np.array(obs_trs[i])
+            u = dv / np.linalg.norm(dv)
+            want_az, want_el = math.atan2(float(u @ east), float(u @ north)), math.asin(max(-1.0, min(1.0, float(u @ up))))
+            # the observer's own geodetic coordinates are recomputed by the code from trs (one-step scheme: < 1e-9 rad here)
+            cosel = max(math.cos(want_el), 1e-6)
+            daz = abs((az[i] - want_az + math.pi) % (2 * math.pi) - math.pi)
+            if daz > 1e-8 / cosel or abs(el[i] - want_el) > 1e-8:
+                gviolate(ctx, f"angles-of-current-other:{'posvel' if posvel else 'position'}",
+                         f"after `observer.other = B`: azimuth/elevation {az[i]!r}/{el[i]!r}, but the vector to B has {want_az!r}/{want_el!r} in the East/North/Up triad at the observer", {**c, "i": i})
     else:  # the ellipsoid of a reference position is replaced after its frame was read
         P = pos(c["refA_llh"], "trs", E)
         xyz = np.asarray(P, dtype=float).copy()
